@@ -137,6 +137,13 @@ DecodeRepeatable(r) ==
         THEN LET r2 == [ r EXCEPT !.got = g ] IN FaceCount(r2) /\ FacesMatch(r2) /\ InRange(g) /\ PadAtEnd(g)
         ELSE g.tbl = r.exps[n + 1]
 
+\* what the source shipped is still what the Grid presents after the reads in between (r.got_after: the carried
+\* values projected again after the sweep of Dialects!Sweeps), on the first decoding and on the repeats
+CarriedAll(r) == /\ CarriedEdgeNode(r) /\ CarriedFaceEdge(r) /\ CarriedEdgeFace(r) /\ CarriedNodeFace(r) /\ CarriedFaceFace(r)
+                 /\ CarriedCentres(r) /\ CarriedCounts(r) /\ CarriedAreas(r) /\ CarriedEdgeNodeDist(r) /\ CarriedEdgeFaceDist(r)
+CarriedStable(r) == /\ (Has(r, "got_after") => CarriedAll([ r EXCEPT !.got = r.got_after ]))
+                    /\ (Has(r, "later_after") => \A n \in 1..Len(r.later_after) : CarriedAll([ r EXCEPT !.got = r.later_after[n] ]))
+
 CaseClauses(r) ==
   [ FaceCount       |-> FaceCount(r),
     FacesMatch      |-> FacesMatch(r),
@@ -159,6 +166,7 @@ CaseClauses(r) ==
     CarriedAreas    |-> CarriedAreas(r),
     CarriedEdgeNodeDist |-> CarriedEdgeNodeDist(r),
     CarriedEdgeFaceDist |-> CarriedEdgeFaceDist(r),
+    CarriedStable   |-> CarriedStable(r),
     InputKept       |-> InputKept(r),
     DecodeRepeatable |-> DecodeRepeatable(r) ]
 
